@@ -796,3 +796,116 @@ func (d *drv) emptyStringDoc() *docgen.Doc {
 	b, _ := json.Marshal(obj)
 	return &docgen.Doc{Bytes: b, Obj: obj, Features: map[string]bool{"empty-string:" + why: true}, Expect: "error", Why: why}
 }
+
+// ---- strings with leading / trailing whitespace ----
+
+var wsPieces = []string{" ", "\t", "\n", " ", "  ", " \t\n", "\r\n"}
+
+// wsString: a string that starts and/or ends with whitespace (space, tab, newline, NBSP), or
+// consists of whitespace only. The document states exactly these characters; the entry must too.
+func (d *drv) wsString() string {
+	r := d.cfg.Rng
+	core := []string{"A-17", "x", "trailing newline", "a b", "42", "true", "2020-01-01"}[r.Intn(7)]
+	w := func() string { return wsPieces[r.Intn(len(wsPieces))] }
+	switch r.Intn(5) {
+	case 0:
+		return w() + core
+	case 1:
+		return core + w()
+	case 2:
+		return w() + core + w()
+	case 3:
+		return w() // whitespace only
+	default:
+		return w() + w() + core
+	}
+}
+
+// whitespaceDoc: string literals (untyped, xsd:string through the context, language-tagged, a
+// custom datatype) whose lexical form starts or ends with whitespace, alone, nested, and as
+// DISTINCT array members that differ only by surrounding whitespace ("x" / " x" / "x ").
+func (d *drv) whitespaceDoc() *docgen.Doc {
+	r := d.cfg.Rng
+	v := docgen.Vocab
+	xs := docgen.XSD + "string"
+	langString := "http://www.w3.org/1999/02/22-rdf-syntax-ns#langString"
+	var facts []docgen.Fact
+	fact := func(pattern, val, dt string) {
+		facts = append(facts, docgen.Fact{Pattern: pattern, Value: "str:" + val, Datatype: dt})
+	}
+	ctx := map[string]any{
+		"typed":  map[string]any{"@id": v + "typed", "@type": xs},
+		"custom": map[string]any{"@id": v + "custom", "@type": v + "customType"},
+	}
+	obj := map[string]any{"@context": ctx, "@id": fmt.Sprintf("urn:ws:%d", r.Intn(1000))}
+	s1 := d.wsString()
+	obj[v+"plain"] = s1
+	fact(v+"plain", s1, xs)
+	if r.Intn(2) == 0 {
+		s := d.wsString()
+		obj["typed"] = s
+		fact(v+"typed", s, xs)
+	}
+	if r.Intn(2) == 0 {
+		s := d.wsString()
+		obj["custom"] = s
+		fact(v+"custom", s, v+"customType")
+	}
+	if r.Intn(2) == 0 {
+		s := d.wsString()
+		obj[v+"lang"] = map[string]any{"@value": s, "@language": "en"}
+		fact(v+"lang", s, langString)
+	}
+	if r.Intn(2) == 0 { // members that differ only by surrounding whitespace are different statements
+		core := []string{"x", "A-17", "v"}[r.Intn(3)]
+		set := []string{core, " " + core, core + " ", "\t" + core, core + "\n", " " + core, " " + core + " "}
+		r.Shuffle(len(set), func(i, j int) { set[i], set[j] = set[j], set[i] })
+		k := 2 + r.Intn(4)
+		var arr []any
+		for _, s := range set[:k] {
+			arr = append(arr, s)
+			fact(v+"arr / *", s, xs)
+		}
+		obj[v+"arr"] = arr
+	}
+	if r.Intn(2) == 0 {
+		s := d.wsString()
+		obj[v+"sub"] = map[string]any{v + "name": s}
+		fact(v+"sub / "+v+"name", s, xs)
+	}
+	b, _ := json.Marshal(obj)
+	return &docgen.Doc{Bytes: b, Obj: obj, Facts: facts, Features: map[string]bool{"whitespace-string": true}, Expect: "ok", Why: "whitespace"}
+}
+
+// whitespaceRaw: the same literals in a hand-built dataset (incl. typed non-string datatypes whose
+// lexical form carries whitespace: decided by the model, which keeps every lexical form verbatim).
+func (d *drv) whitespaceRaw() *ld.RDFDataset {
+	r := d.cfg.Rng
+	ds := ld.NewRDFDataset()
+	v := docgen.Vocab
+	root := ld.NewIRI("urn:ws:root")
+	add := func(s ld.Node, p string, o ld.Node) {
+		ds.Graphs["@default"] = append(ds.Graphs["@default"], ld.NewQuad(s, ld.NewIRI(v+p), o, ""))
+	}
+	core := []string{"x", "A-17"}[r.Intn(2)]
+	for _, s := range []string{core, " " + core, core + " ", core + "\n", " " + core}[:2+r.Intn(4)] {
+		add(root, "arr", ld.NewLiteral(s, ld.XSDString, ""))
+	}
+	add(root, "only", ld.NewLiteral(wsPieces[r.Intn(len(wsPieces))], ld.XSDString, ""))
+	add(root, "custom", ld.NewLiteral(d.wsString(), v+"customType", ""))
+	add(root, "lang", ld.NewLiteral(d.wsString(), "http://www.w3.org/1999/02/22-rdf-syntax-ns#langString", "en"))
+	if r.Intn(2) == 0 {
+		c := ld.NewBlankNode("_:c")
+		add(root, "sub", c)
+		add(c, "name", ld.NewLiteral(d.wsString(), ld.XSDString, ""))
+	}
+	switch r.Intn(4) { // typed lexical forms with whitespace: whatever the code does, the model must agree
+	case 0:
+		add(root, "int", ld.NewLiteral(" 42", ld.XSDInteger, ""))
+	case 1:
+		add(root, "bool", ld.NewLiteral("true ", ld.XSDBoolean, ""))
+	case 2:
+		add(root, "time", ld.NewLiteral("\n2020-01-01T00:00:00Z", docgen.XSD+"dateTime", ""))
+	}
+	return ds
+}
